@@ -163,8 +163,10 @@ class Driver:
                 ctx.event("skipped_capture_definition_off_spine")
                 return False
         except M.Unsupported as e:
-            ctx.inconc(f"model unsupported: {str(e)[:40]}")
-            return False
+            if self.judge_model:
+                ctx.inconc(f"model unsupported: {str(e)[:40]}")
+                return False
+            ctx.event("model_unsupported_form_still_monitored")
         for mn, op in flagsets:
             doc = {}
             if mn or op or ctx.rng.random() < 0.2:
@@ -172,11 +174,14 @@ class Driver:
             doc["pattern"] = pattern
             text = real.dump_rule(doc)
             try:
-                o = dsl.evaluate(self.ws, prep, text, macros=self.macros)
+                o = dsl.evaluate(self.ws, prep, text, macros=self.macros, require_model=self.judge_model)
             except M.Unsupported as e:
                 ctx.inconc(f"model unsupported: {str(e)[:40]}")
                 return False
             ctx.ran()
+            if o.status == "timeout":
+                ctx.inconc("regex engine timeout (JASM's 60 s budget)")
+                return False
             any_found = any_found or o.found_model
             nontrivial = (o.found_model or base_found) and (self.interesting is None or self.interesting(pattern))
             ctx.case((text, prep.expect), nontrivial and (self.judge_model or self.count_model_nontrivial), stratum=f"{self.style}/{desc.split(':')[0]}",
